@@ -21,5 +21,33 @@ CLAIMS = {
         text="Rules are generated from the IPFilterRule grammar with boundary-biased addresses, prefixes, ports and spacing; ParseFlowDesc must agree with a reference parser written from the statement, and the netlink attributes produced by newFlowDesc must decode (gtp5gnl.DecodeFlowDesc) to the same filter, exchanged for uplink. Near-miss and arbitrary strings must not fault. Random sampling of an infinite input space.",
         note="Trusts the reference parser and go-gtp5gnl's DecodeFlowDesc; any/assigned denote 0.0.0.0/0; port n equals range n-n.",
     ),
+    "C01": dict(
+        level="fault_enumeration",
+        design_ref="DESIGN.md 3/C01",
+        technique="rapid-generated PFCP histories x exhaustive single-fault positions (fail-before/fail-after) against a reference model of the data plane",
+        text="Each generated history is executed against the real PfcpServer through its UDP socket with a model data plane, once fault-free and once for every position of a create/update/query call in its data-plane call stream in two failure modes; after every message the model data plane is compared with the reference sets of requested/removed rules. Fault positions are enumerated completely per history; histories are sampled.",
+        note="Model data plane with kernel EEXIST/ENOENT semantics stands in for gtp5g; removes do not fail by injection; go-pfcp codecs trusted.",
+    ),
+    "C04": dict(
+        level="exploration",
+        design_ref="DESIGN.md 3/C04",
+        technique="rapid stateful histories with SEID-class probes against a reference model of the SEID space",
+        text="Generated histories drive the session table through growth, holes and reuse across three nodes; Modification/Deletion requests and data-plane reports probe SEIDs of every class (0, live, released, beyond the table, around 2^63, 2^64-1, random). Responses, data-plane calls and the server's session table are compared with a reference model after every step.",
+        note="Model data plane; in-package read-only snapshot accessor (build tag verif) for the frame condition; go-pfcp codecs trusted.",
+    ),
+    "C05": dict(
+        level="exploration",
+        design_ref="DESIGN.md 3/C05",
+        technique="rapid stateful histories with a frame-condition oracle over server snapshot and model data plane",
+        text="Histories with coinciding rule ids and CP SEIDs over several nodes and sessions, with reports, re-association, SEID-0 answers and takeover; before/after every message everything belonging to sessions the message does not address must be deep-equal, calls must carry the addressed SEID, and bulk removals must hit exactly the owning node's sessions.",
+        note="Ownership after takeover onto an existing node id is ambiguous and only bounded (must/forbid sets), not asserted exactly; CP SEIDs unique per peer.",
+    ),
+    "C08": dict(
+        level="exploration",
+        design_ref="DESIGN.md 3/C08",
+        technique="rapid stateful histories with request/response correlation and no-trace oracles",
+        text="Every request kind from associated and never-associated sockets, including requests lacking Node ID / F-SEID, unknown nodes and SEIDs, equal CP SEIDs across peers; each answer is checked for destination socket, sequence number, type, header SEID, cause and Establishment Response content, rejected or unanswered requests must leave snapshot and data plane unchanged, recovery time stamps must be identical (one scenario spans a full second).",
+        note="Model data plane; loopback UDP delivery is synchronous, absence of an answer is observed after a heartbeat barrier.",
+    ),
 }
 PENDING = {}
